@@ -75,6 +75,8 @@ type Oracle struct {
 	Counters  bool `json:"counters,omitempty"`  // user metric totals
 	Graph     bool `json:"graph,omitempty"`     // C08 graph checks
 	Capacity  bool `json:"capacity,omitempty"`  // C14 monitor
+	// SingleRunner: no task has two Executor.Run calls in flight at once (C19).
+	SingleRunner bool `json:"single_runner,omitempty"`
 	Placement bool `json:"placement,omitempty"` // C05: key -> shard tables of writerfunc sites
 	// FaultsStop: liveness clause applies (all steps must return).
 	Liveness bool `json:"liveness,omitempty"`
